@@ -1,10 +1,12 @@
 #!/bin/bash
-# Mirrors /verif to /tmp/ev/verif with go.mod pointing at the scratch worktree /tmp/ev/repo, so that
-# seeded changes can be applied and checked without touching /repo or /verif/evidence.
+# tools/alt_sync.sh [dir]  (default /tmp/ev)
+# Mirrors /verif to <dir>/verif with go.mod pointing at the scratch worktree <dir>/repo, so that
+# changes can be applied and checked without touching /repo or /verif/evidence.
 set -e
-mkdir -p /tmp/ev
-[ -d /tmp/ev/repo ] || git -C /repo worktree add -q --detach /tmp/ev/repo HEAD
-git -C /tmp/ev/repo checkout -q --detach "$(git -C /repo rev-parse HEAD)"
-rsync -a --delete --exclude .git --exclude bin --exclude violations --exclude evidence /verif/ /tmp/ev/verif/
-mkdir -p /tmp/ev/verif/evidence
-sed -i 's#=> /repo#=> /tmp/ev/repo#' /tmp/ev/verif/go.mod
+D="${1:-/tmp/ev}"
+mkdir -p "$D"
+[ -d "$D/repo" ] || git -C /repo worktree add -q --detach "$D/repo" HEAD
+git -C "$D/repo" checkout -q --detach "$(git -C /repo rev-parse HEAD)"
+rsync -a --delete --exclude .git --exclude bin --exclude violations --exclude evidence /verif/ "$D/verif/"
+mkdir -p "$D/verif/evidence"
+sed -i "s#=> /repo#=> $D/repo#" "$D/verif/go.mod"
